@@ -48,6 +48,9 @@ class OpsMixin:
         hook = self.coerce_hooks.get((v.ty.kind if not v.is_py else type(v.t).__name__, ty.name or ty.kind))
         if hook is not None:
             return hook(self, v, ty)
+        if v.is_py and ty.kind == "opt" and v.t is not None and not isinstance(v.t, (bool, int, str)):
+            inner = self.coerce(v, ty.args[0])
+            return Val(ty, self.reg.sort(ty).some(inner.t))
         if v.is_py:
             lv = self.lift(v.t, ty)
             if lv.is_py:
@@ -55,6 +58,10 @@ class OpsMixin:
                     return self.coerce(self.build_collection(v.t, ty), ty)
                 raise Unsupported(f"cannot coerce python object {v.t!r} to {ty}")
             return self.coerce(lv, ty)
+        if ty.kind == "opt" and v.ty.kind == "opt":
+            srt = self.reg.sort(ty)
+            inner = self.coerce(self.unwrap(v), ty.args[0])
+            return Val(ty, z3.If(self.is_none(v), srt.none, srt.some(inner.t)))
         if ty.kind == "opt":
             srt = self.reg.sort(ty)
             if v.ty.kind == "none":
